@@ -10,7 +10,7 @@ if os.path.exists(p):
         if m:
             res[m.group(1)] = (m.group(2), m.group(3).strip())
 rows = ["| seed | property | needs, to manifest | result of `run_seeds.sh quick` |", "|---|---|---|---|"]
-for d in sorted(glob.glob(os.path.join(ROOT, 'seeded', 'S*'))):
+for d in sorted(glob.glob(os.path.join(ROOT, 'seeded', 'S*')), key=lambda d: int(re.match(r'S(\d+)', os.path.basename(d)).group(1))):
     meta = json.load(open(os.path.join(d, 'meta.json')))
     sid = meta['id']
     r = res.get(sid)
